@@ -409,7 +409,7 @@ Proof.
   - assert (n = 0%Z) by lia. subst n. rewrite Z.mod_0_l by lia. reflexivity.
 Qed.
 
-Lemma move_in h r t n : In (cyc_at r t n) (r :: t).
+Lemma cyc_at_in r t n : In (cyc_at r t n) (r :: t).
 Proof.
   unfold cyc_at. apply nth_In.
   pose proof (Z.mod_pos_bound n (Z.of_nat (S (length t)))). cbn [length]. lia.
@@ -456,4 +456,188 @@ Lemma do_rep h r t : ring_rep h (r :: t) ->
   do h (Some r) = Some (h, map (fun x => val (cell h x)) (r :: t)).
 Proof.
   intro H. unfold do. rewrite (next_rep h r t H), (around_ring h r t H). reflexivity.
+Qed.
+
+(* ------------------------------------------------------------------------------------- *)
+(* D. the zero ring and New                                                                *)
+
+(* what an operation leaves untouched: the allocation mark, every Value, and the link fields
+   of every node outside [dom] *)
+Definition frame (h h' : heap) (dom : list nat) : Prop :=
+  top h' = top h /\
+  (forall x, val (cell h' x) = val (cell h x)) /\
+  (forall x, ~ In x dom -> nxt (cell h' x) = nxt (cell h x) /\ prv (cell h' x) = prv (cell h x)).
+
+Lemma frame_refl h dom : frame h h dom.
+Proof. repeat split. Qed.
+
+Lemma frame_incl h h' d1 d2 : incl d1 d2 -> frame h h' d1 -> frame h h' d2.
+Proof.
+  intros I (T & V & F). split; [exact T|]. split; [exact V|].
+  intros x Hx. apply F. intro; apply Hx; now apply I.
+Qed.
+
+Lemma frame_trans h1 h2 h3 dom : frame h1 h2 dom -> frame h2 h3 dom -> frame h1 h3 dom.
+Proof.
+  intros (T1 & V1 & F1) (T2 & V2 & F2). split; [congruence|]. split.
+  - intro x. now rewrite V2.
+  - intros x Hx. destruct (F1 x Hx), (F2 x Hx). split; congruence.
+Qed.
+
+Lemma ring_rep_framed h h' dom l :
+  frame h h' dom -> (forall x, In x l -> ~ In x dom) -> ring_rep h l -> ring_rep h' l.
+Proof.
+  intros (T & _ & F) D H. apply (ring_rep_frame h); [|lia|exact H].
+  intros x Hx. apply F. now apply D.
+Qed.
+
+(* r.init(): the zero ring becomes a proper one-element ring *)
+Lemma init_rep h r : r < top h ->
+  ring_rep (fst (init h r)) [r] /\ frame h (fst (init h r)) [r].
+Proof.
+  intro LT. unfold init; cbn [fst]. split.
+  - cbn. heap_simpl. rewrite !Nat.eqb_refl. repeat split.
+    + constructor; [intros []|constructor].
+    + intros y [<-|[]]. exact LT.
+  - split; [reflexivity|]. split.
+    + intro x. now heap_simpl.
+    + intros x Hx. heap_simpl. assert (x <> r) by (intro; apply Hx; now left).
+      replace (Nat.eqb x r) with false by (symmetry; now apply Nat.eqb_neq). now split.
+Qed.
+
+Lemma removelast_seq base k : removelast (seq base (S k)) = seq base k.
+Proof. rewrite seq_S. apply removelast_app_one. Qed.
+
+Lemma last_seq base k d : last (seq base (S k)) d = base + k.
+Proof. rewrite seq_S. apply last_last. Qed.
+
+Lemma new_loop_rep : forall iters h m base,
+  1 <= m -> top h = base + m -> nchain h (seq base m) -> pchain h (seq base m) ->
+  exists h', new_loop h (base + m - 1) iters = (h', base + m + iters - 1) /\
+    top h' = base + m + iters /\
+    nchain h' (seq base (m + iters)) /\ pchain h' (seq base (m + iters)) /\
+    (forall x, x < base -> cell h' x = cell h x) /\
+    (forall x, x < base + m -> val (cell h' x) = val (cell h x)) /\
+    (forall x, base + m <= x < base + m + iters -> val (cell h' x) = 0%Z).
+Proof.
+  induction iters as [|iters IH]; intros h m base Hm HT NC PC.
+  - exists h. cbn [new_loop]. rewrite !Nat.add_0_r. repeat split; try assumption. intros x Hx. lia.
+  - cbn [new_loop]. unfold alloc. rewrite HT.
+    set (p := base + m - 1). set (q := base + m).
+    set (h1 := mk_heap (fun j => if Nat.eqb j q then mk_node None (Some p) 0 else cell h j) (S q)).
+    set (h2 := set_nxt h1 p (Some q)).
+    assert (Hpq : p <> q) by (unfold p, q; lia).
+    assert (Hnx : forall x, nxt (cell h2 x) =
+                    if Nat.eqb x p then Some q else if Nat.eqb x q then None else nxt (cell h x)).
+    { intro x. unfold h2. rewrite nxt_set_nxt. unfold h1; cbn.
+      destruct (Nat.eqb x p), (Nat.eqb x q); reflexivity. }
+    assert (Hpv : forall x, prv (cell h2 x) = if Nat.eqb x q then Some p else prv (cell h x)).
+    { intro x. unfold h2. rewrite prv_set_nxt. unfold h1; cbn. destruct (Nat.eqb x q); reflexivity. }
+    assert (Hvl : forall x, val (cell h2 x) = if Nat.eqb x q then 0%Z else val (cell h x)).
+    { intro x. unfold h2. rewrite val_set_nxt. unfold h1; cbn. destruct (Nat.eqb x q); reflexivity. }
+    destruct m as [|m']; [lia|].
+    assert (NC2 : nchain h2 (seq base (S (S m')))).
+    { rewrite (seq_S (S m')). apply (nchain_join _ _ _ 0).
+      - apply (nchain_frame h); [|exact NC]. intros x Hx. rewrite removelast_seq in Hx.
+        apply in_seq in Hx. rewrite Hnx.
+        replace (Nat.eqb x p) with false by (symmetry; apply Nat.eqb_neq; unfold p; lia).
+        replace (Nat.eqb x q) with false by (symmetry; apply Nat.eqb_neq; unfold q; lia).
+        reflexivity.
+      - exact I.
+      - cbn; discriminate.
+      - discriminate.
+      - rewrite last_seq. cbn [hd]. rewrite Hnx.
+        replace (base + m') with p by (unfold p; lia). rewrite Nat.eqb_refl.
+        f_equal. unfold q. lia. }
+    assert (PC2 : pchain h2 (seq base (S (S m')))).
+    { rewrite (seq_S (S m')). apply (pchain_join _ _ _ 0).
+      - apply (pchain_frame h); [|exact PC]. intros x Hx.
+        assert (In x (seq base (S m'))) by (destruct (seq base (S m')); [contradiction | now right]).
+        apply in_seq in H. rewrite Hpv.
+        replace (Nat.eqb x q) with false by (symmetry; apply Nat.eqb_neq; unfold q; lia).
+        reflexivity.
+      - exact I.
+      - cbn; discriminate.
+      - discriminate.
+      - rewrite last_seq. cbn [hd]. rewrite Hpv.
+        replace (base + S m') with q by (unfold q; lia). rewrite Nat.eqb_refl.
+        f_equal. unfold p. lia. }
+    destruct (IH h2 (S (S m')) base) as (h' & E & T' & NC' & PC' & F' & V1 & V2);
+      [lia | unfold h2, h1, q; cbn; lia | exact NC2 | exact PC2 |].
+    exists h'. replace (base + S (S m') - 1) with q in E by (unfold q; lia).
+    rewrite E. repeat split.
+    + f_equal. lia.
+    + lia.
+    + replace (S m' + S iters) with (S (S m') + iters) by lia. exact NC'.
+    + replace (S m' + S iters) with (S (S m') + iters) by lia. exact PC'.
+    + intros x Hx. rewrite F' by exact Hx. unfold h2, set_nxt, upd, h1; cbn.
+      replace (Nat.eqb x p) with false by (symmetry; apply Nat.eqb_neq; unfold p; lia).
+      replace (Nat.eqb x q) with false by (symmetry; apply Nat.eqb_neq; unfold q; lia).
+      reflexivity.
+    + intros x Hx. rewrite V1 by lia. rewrite Hvl.
+      replace (Nat.eqb x q) with false by (symmetry; apply Nat.eqb_neq; unfold q; lia).
+      reflexivity.
+    + intros x Hx. destruct (Nat.eq_dec x q) as [->|Nq].
+      * rewrite V1 by (unfold q; lia). rewrite Hvl. now rewrite Nat.eqb_refl.
+      * apply V2. unfold q in Nq. lia.
+Qed.
+
+(* New(n), n > 0: n fresh nodes forming one ring, Values zero, nothing else touched *)
+Lemma new_rep h n : (0 < n)%Z ->
+  exists h', new h n = (h', Some (top h)) /\
+    ring_rep h' (seq (top h) (Z.to_nat n)) /\
+    top h' = top h + Z.to_nat n /\
+    (forall x, x < top h -> cell h' x = cell h x) /\
+    (forall x, top h <= x < top h + Z.to_nat n -> val (cell h' x) = 0%Z).
+Proof.
+  intro Hn. unfold new. replace (n <=? 0)%Z with false by lia.
+  unfold alloc. set (base := top h).
+  set (h0 := mk_heap (fun j => if Nat.eqb j base then zero_node else cell h j) (S base)).
+  destruct (new_loop_rep (Z.to_nat (n - 1)) h0 1 base) as (h1 & E & T1 & NC1 & PC1 & F1 & V1 & V2);
+    [lia | unfold h0; cbn; lia | exact I | exact I |].
+  replace (base + 1 - 1) with base in E by lia. rewrite E.
+  set (iters := Z.to_nat (n - 1)) in *.
+  set (p := base + 1 + iters - 1).
+  replace (Z.to_nat n) with (S iters) by (unfold iters; lia).
+  change (1 + iters) with (S iters) in *.
+  eexists. split; [reflexivity|].
+  assert (Hnx : forall x, nxt (cell (set_prv (set_nxt h1 p (Some base)) base (Some p)) x) =
+                  if Nat.eqb x p then Some base else nxt (cell h1 x)).
+  { intro x. now heap_simpl. }
+  assert (Hpv : forall x, prv (cell (set_prv (set_nxt h1 p (Some base)) base (Some p)) x) =
+                  if Nat.eqb x base then Some p else prv (cell h1 x)).
+  { intro x. now heap_simpl. }
+  split; [|split; [|split]].
+  - cbn [seq ring_rep]. change (base :: seq (S base) iters) with (seq base (S iters)).
+    split; [apply seq_NoDup|]. split; [|split].
+    + apply (nchain_join _ _ _ 0).
+      * apply (nchain_frame h1); [|exact NC1]. intros x Hx. rewrite removelast_seq in Hx.
+        apply in_seq in Hx. rewrite Hnx.
+        replace (Nat.eqb x p) with false by (symmetry; apply Nat.eqb_neq; unfold p; lia).
+        reflexivity.
+      * exact I.
+      * cbn; discriminate.
+      * discriminate.
+      * rewrite last_seq. cbn [hd]. rewrite Hnx.
+        replace (base + iters) with p by (unfold p; lia). now rewrite Nat.eqb_refl.
+    + apply (pchain_join _ _ _ 0).
+      * apply (pchain_frame h1); [|exact PC1]. intros x Hx. cbn [seq tl] in Hx.
+        apply in_seq in Hx. rewrite Hpv.
+        replace (Nat.eqb x base) with false by (symmetry; apply Nat.eqb_neq; lia).
+        reflexivity.
+      * exact I.
+      * cbn; discriminate.
+      * discriminate.
+      * rewrite last_seq. cbn [hd]. rewrite Hpv. rewrite Nat.eqb_refl.
+        f_equal. unfold p. lia.
+    + intros y Hy. apply in_seq in Hy. heap_simpl. lia.
+  - heap_simpl. lia.
+  - intros x Hx. unfold set_prv, set_nxt, upd; cbn.
+    replace (Nat.eqb x base) with false by (symmetry; apply Nat.eqb_neq; lia).
+    replace (Nat.eqb x p) with false by (symmetry; apply Nat.eqb_neq; unfold p; lia).
+    rewrite F1 by exact Hx. unfold h0; cbn.
+    replace (Nat.eqb x base) with false by (symmetry; apply Nat.eqb_neq; lia). reflexivity.
+  - intros x Hx. heap_simpl. destruct (Nat.eq_dec x base) as [->|Nb].
+    + rewrite V1 by lia. unfold h0; cbn. now rewrite Nat.eqb_refl.
+    + apply V2. lia.
 Qed.
